@@ -67,7 +67,7 @@ PROPS = {
 
 PROPS.update({
     "C02": {
-        "level_text": "Bounded-exhaustive exploration of scanner configurations, each driven through the real Scanner state machine (next() to exhaustion plus two more calls): ALL 3906 DNA strings of length <= 5 x all matrices of a tie/near-tie row menu (M<=2, part of M=3) x thresholds (every attainable score, midpoints, below/above the extremes) x block sizes x 3 dispatcher arms; every length 0..=170 (and around 8192) x all block sizes 1..8,256 so that every position of a block boundary relative to sequence rows and look-ahead rows occurs. Oracle: reference hit set from exact f64 scores. Plus histories on one scanner: threshold changed in mid-scan (rethreshold) and block size changed in mid-scan (reblock: ordered pairs of {1,2,3,5,256}, after k = 0..6 hits), sequences configured for other widths first, exact-capacity clones and hand-built sequences.",
+        "level_text": "Bounded-exhaustive exploration of scanner configurations, each driven through the real Scanner state machine (next() to exhaustion plus two more calls): ALL 3906 DNA strings of length <= 5 x all matrices of a tie/near-tie row menu (M<=2, part of M=3) x thresholds (every attainable score, midpoints, below/above the extremes) x block sizes x 3 dispatcher arms; every length 0..=170 (and around 8192) x all block sizes 1..8,256 so that every position of a block boundary relative to sequence rows and look-ahead rows occurs. Oracle: reference hit set from exact f64 scores. Plus histories on one scanner: threshold changed in mid-scan (rethreshold) and block size changed in mid-scan (reblock: ordered pairs of {1,2,3,5,256}, after k = 0..6 hits), sequences configured for other widths first, exact-capacity clones and hand-built sequences. An `extremes` space adds matrices at the edges of the 8-bit discretisation: cells sharing a large offset relative to their spread (65536 + k/128; 2^20 + ...) and long motifs (M = 40, 70, 100) on consensus neighbourhoods.",
         "level_note": "Trusted: reference scores (f64) and the summation bound used to leave positions within rounding of the threshold undecided (never arises for the integer/dyadic menus). Finite thresholds only.",
         "technique": "bounded-exhaustive enumeration of scanner configurations, each run to exhaustion against a reference hit set",
         "level": "exploration",
@@ -78,7 +78,7 @@ PROPS.update({
         "assumptions": COMMON_ASSUMPTIONS + ["the scanner only works on DNA with 32 columns (the only instantiation the library provides)"],
     },
     "C03": {
-        "level_text": "Model checking of the Scanner state machine over the operation alphabet {next, max}: for every configuration of the C02 space, EVERY history next^k . max (k = 0..=#hits+1) is re-executed on a fresh real scanner and the result compared with the reference maximum over the unconsumed hits; the row menu contains a designed pair whose 8-bit order inverts the real order, so pruning with an over-estimate is observable.",
+        "level_text": "Model checking of the Scanner state machine over the operation alphabet {next, max}: for every configuration of the C02 space, EVERY history next^k . max (k = 0..=#hits+1) is re-executed on a fresh real scanner and the result compared with the reference maximum over the unconsumed hits; the row menu contains a designed pair whose 8-bit order inverts the real order, so pruning with an over-estimate is observable. Also histories threshold(t1) . next^k . threshold(t2 > t1) . max() on one scanner, and the `extremes` space of C02.",
         "level_note": "Trusted: reference scores; for > 40 hits only the prefix lengths {0,1,2,3,h/3,h/2,h-1,h,h+1} are run (stated bound). Ties may be resolved either way.",
         "technique": "exhaustive enumeration of next^k.max histories re-executed on the real scanner, reference-model comparison",
         "level": "model_checking",
@@ -140,7 +140,7 @@ PROPS.update({
         ],
     },
     "C10": {
-        "level_text": 'Bounded-exhaustive exploration: all 2800 DNA count matrices of width 1..=4 over the C09 row menu x pseudocounts x backgrounds: rc(rc(m)) == m bit for bit and rc(m) == definition for count/frequency/weight/scoring matrices; rc commutes with to_freq/to_weight/to_scoring under 5x5 strand-symmetric pseudocounts/backgrounds; ALL DNA sequences of length <= 6 (thorough <= 7) x every menu scoring matrix with M <= 3 x {generic pipeline, dispatcher arms generic/sse2/avx2}: rc(m).score(rc(s))[L-M-i] == m.score(s)[i].',
+        "level_text": 'Bounded-exhaustive exploration: all 2800 DNA count matrices of width 1..=4 over the C09 row menu x pseudocounts x backgrounds: rc(rc(m)) == m bit for bit and rc(m) == definition for count/frequency/weight/scoring matrices; rc commutes with to_freq/to_weight/to_scoring under 5x5 strand-symmetric pseudocounts/backgrounds; ALL DNA sequences of length <= 6 (thorough <= 7) x every menu scoring matrix with M <= 3 x {generic pipeline, dispatcher arms generic/sse2/avx2}: rc(m).score(rc(s))[L-M-i] == m.score(s)[i]. Plus matrices cut down with DenseMatrix::resize before being wrapped (rc must equal the definition, no panic) and the mirror law under 16 / 48 / 64 columns for the generic and SSE2 pipelines.',
         "level_note": 'Trusted: complement table A<->T, C<->G, N<->N on ranks A,C,T,G,N; summation bound 2*gamma_{M-1}*sum|terms| (exact equality demanded for the integer-valued matrices and for -inf); commutation of to_freq allowed 2*gamma_{K+2} for the row-sum order, the element-wise steps must be bit-identical.',
         "technique": 'bounded-exhaustive enumeration of matrix menus x all short DNA sequences x backends; involution, commutation and mirrored-score oracles',
         "level": "exploration",
